@@ -14,6 +14,7 @@ from symgo import Program, Executor, State, Unsupported, UnwindError, Inconclusi
 
 REPO = os.environ.get('VERIF_REPO', '/repo')
 WORKROOT = os.environ.get('VERIF_WORK', os.path.join(VERIF, '.work'))
+DUMP_SMT = os.environ.get('VERIF_DUMP_SMT')
 VERBOSE = bool(os.environ.get('VERIF_VERBOSE'))
 EVID_DIR = os.environ.get('VERIF_EVIDENCE_DIR', os.path.join(VERIF, 'evidence'))
 MOD = 'github.com/scottyw/tetromino'
@@ -264,11 +265,13 @@ def run_entry(world, entry, config=None, timeout_ms=120000, known=None, want_mod
     res['funcs'] = sorted(ex2.stats['funcs'])
     res['feas_queries'] = ex2.stats['feas']
     res['exits'] = len(ex2.events)
-    solver = z3.Solver()
-    solver.set('timeout', timeout_ms)
     nq = 0
     tsolve = 0.0
     for ob in ex2.obligations:
+        # a fresh solver per obligation: without push/pop z3 runs its full preprocessing (the pixel-composition query of
+        # C15 is unsat in 14 s this way and in 458 s through an incremental solver)
+        solver = z3.Solver()
+        solver.set('timeout', timeout_ms)
         if ob.kind == 'assert' and only is not None and not re.match(only, ob.name):
             continue
         if skip_implicit and ob.kind not in ('assert', 'reach'):
@@ -277,10 +280,8 @@ def run_entry(world, entry, config=None, timeout_ms=120000, known=None, want_mod
         cond = ob.cond
         t1 = time.time()
         if ob.kind == 'reach':
-            solver.push()
             solver.add(*ob.pc)
             r = solver.check()
-            solver.pop()
             nq += 1
             o['result'] = 'reachable' if r == z3.sat else ('UNREACHABLE' if r == z3.unsat else 'unknown')
             o['solve_s'] = round(time.time() - t1, 3)
@@ -291,10 +292,12 @@ def run_entry(world, entry, config=None, timeout_ms=120000, known=None, want_mod
             o['result'] = 'trivial'
             res['obligations'].append(o)
             continue
-        solver.push()
         solver.add(*ob.pc)
         ncond = z3.BoolVal(True) if cond is False else z3.Not(cond)
         solver.add(ncond)
+        if DUMP_SMT:
+            os.makedirs(DUMP_SMT, exist_ok=True)
+            open(os.path.join(DUMP_SMT, '%s_%s_%s.smt2' % (entry.rsplit('.', 1)[-1], re.sub(r'\W+', '_', json.dumps(cfg, sort_keys=True)), re.sub(r'\W+', '_', ob.name)[:40])), 'w').write(solver.to_smt2())
         r = solver.check()
         nq += 1
         if r == z3.unsat:
@@ -342,7 +345,6 @@ def run_entry(world, entry, config=None, timeout_ms=120000, known=None, want_mod
         else:
             o['result'] = 'unknown'
             o['reason'] = solver.reason_unknown()
-        solver.pop()
         o['solve_s'] = round(time.time() - t1, 3)
         tsolve += time.time() - t1
         res['obligations'].append(o)
